@@ -335,6 +335,8 @@ func checkC17(r *vt.Run) {
 		{[]string{"az1-r1", "az1-r2", "az2-r3"}, "-"},
 		{[]string{"az1-r1", "plain2", "plain3"}, "-"},
 		{[]string{"az1-r1", "az1-r2", "az2-r3"}, ""},
+		// a separator of several characters, each of which also occurs inside the zone names
+		{[]string{"bd1.db.r1", "bd1.db.r2", "bb2.db.r3"}, ".db."},
 	}
 	pcts := []int{0, 1, 32, 33, 34, 50, 66, 99, 100}
 	nrep := 3
@@ -346,6 +348,7 @@ func checkC17(r *vt.Run) {
 			{[]string{"az1-r1", "az1-r2", "az2-r3", "az2-r4"}, "-"},
 			{[]string{"az1-r1", "az1-r2", "az1-r3", "plain4"}, "-"},
 			{[]string{"az1-r1", "az1-r2", "az2-r3", "az2-r4"}, ""},
+			{[]string{"bd1.db.r1", "bd1.db.r2", "bb2.db.r3", "bb2.db.r4"}, ".db."},
 		}
 	}
 	r.Bound("grid_b_replicas", nrep)
